@@ -52,6 +52,11 @@ impl VecS {
         requires a < old(self).v@.len(), b == a + 1,
         ensures final(self).v@ == old(self).v@.remove(a as int),
     { self.v.remove(a); }
+    /// `Vec::remove(i)`: panics when out of bounds; the removed element is returned
+    pub fn remove(&mut self, a: usize) -> (r: SinkH)
+        requires a < old(self).v@.len(),
+        ensures final(self).v@ == old(self).v@.remove(a as int), r == old(self).v@[a as int],
+    { self.v.remove(a) }
 }
 
 pub struct G<T> {
@@ -362,7 +367,7 @@ pub fn share__sink_talkback<T>(h: &mut Heap, g: &mut Ghost<G<T>>, c: &Cap, sink:
 //@split Handshake Data Error Terminate
 #[verifier::exec_allows_no_decreases_clause]
 #[verifier::loop_isolation(false)]
-#[verifier::rlimit(40)]
+#[verifier::rlimit(150)]
 pub fn share__upstream<T>(h: &mut Heap, g: &mut Ghost<G<T>>, c: &Cap, sink: SinkH, message: Message<T, Tb>)
     requires
         INV!(*old(h), old(g)@, *c),
